@@ -27,6 +27,7 @@
  *  - ASan/UBSan (malloc, mmap builds): any report is turned into `ORACLE asan ...`
  */
 #define _GNU_SOURCE
+#include <errno.h>
 #include <pthread.h>
 #include <stdint.h>
 #include <stdio.h>
@@ -155,7 +156,14 @@ static alloc_t* al_find_any(void* p, int kind) {
   return NULL;
 }
 
+/* requests no allocator can satisfy (beyond the 47-bit user address space): "all requested stack
+ * sizes" includes them; the only correct outcome is a clean FIBER_ERROR */
+#define ABSURD ((size_t)1 << 48)
+static int count_live(void);
+
 void* vh_malloc(size_t n) {
+  /* what the C library does for such a request (the sanitizer's allocator would abort instead) */
+  if (n >= ABSURD) { errno = ENOMEM; return NULL; }
   void* p = malloc(n);
   if (p) al_add(p, n, K_MALLOC, NULL);
   return p;
@@ -383,6 +391,12 @@ NOSAN void fiber_dispatch(void) {
   for (;;) __builtin_trap();
 }
 
+static int count_live(void) {
+  int live = 0;
+  for (int i = 0; i < g_nal; i++) live += g_al[i].live;
+  return live;
+}
+
 /* ------------------------------------------------------------------ driver side (thread contexts: libc allowed) */
 static const size_t SIZES[] = {1, 16, 100, 1024, 4096, 20000, 65536, 262144, 1048576};
 
@@ -394,8 +408,19 @@ static void create_fiber(int i, size_t size) {
   f->req_size = size;
   f->rng = rnd() | 1;
   int before[4] = {0, g_allocs[1], g_allocs[2], g_allocs[3]};
+  const int live_before = count_live();
   int rc = fiber_context_init(&f->ctx, size, ctx_entry, (void*)f->param);
+  if (rc != FIBER_SUCCESS && size >= ABSURD) {
+    /* refused, as it must be: nothing may stay allocated behind a failed init */
+    if (count_live() != live_before) rec(E_ORACLE, i, "refused_init_leaked_an_allocation", size, (uint64_t)(count_live() - live_before), 0);
+    rec(E_NOTE, i, "init_refused", size, 0, 0);
+    return;
+  }
   if (rc != FIBER_SUCCESS) { rec(E_ORACLE, i, "init_failed", size, 0, 0); return; }
+#ifndef FIBER_STACK_SPLIT
+  /* (split stacks grow on demand: the requested size is only the first segment's) */
+  if (f->ctx.ctx_stack_size < size) rec(E_ORACLE, i, "init_succeeded_with_a_smaller_stack", size, f->ctx.ctx_stack_size, 0);
+#endif
   f->created = 1;
   uint64_t lo = (uint64_t)f->ctx.ctx_stack, sz = f->ctx.ctx_stack_size;
   rec(E_INIT, i, STRAT, size, sz, lo);
